@@ -107,6 +107,10 @@ class MergeForLoops(RewritePattern):
         if lb != 0 or lb_parent != 0 or step != 1 or step_parent != 1:
             return
 
+        # a negative upper bound means no iteration: ub * ub_parent would turn two of them into a positive trip count
+        if ub < 0 or ub_parent < 0:
+            return
+
         # the new ub of the parent op is ub * ub_parent
         new_parent_ub = ConstantOp.from_int_and_width(ub * ub_parent, IndexType())
         rewriter.insert_op(new_parent_ub, InsertPoint.before(parent))
